@@ -33,6 +33,8 @@ type WGlyph struct {
 	HintRepl   bool // replace hints half-way (stems then not compared)
 	DotSection bool
 	Seac       *WSeac
+	// Raw, if non-nil, is used as the plain charstring as it is (hostile inputs)
+	Raw []byte
 }
 
 // WCmd is a path command: 'M', 'L', 'C', 'Z' with numerators.
@@ -81,6 +83,11 @@ type WLayout struct {
 	General   int // percent of segments written with the general command although a special one fits
 	Subrs     [][]byte // plain subroutines (filled while encoding)
 	Desc      string
+	// hostile-input switches (C01): literal text of the lenIV entry, raw
+	// subroutines used as they are, charstrings cut shorter than lenIV
+	LenIVText string
+	RawSubrs  [][]byte
+	CutShort  bool
 }
 
 // ---------------------------------------------------------------- charstring encoding
@@ -173,6 +180,9 @@ func (e *csEnc) addSubr(body []byte, depth int) int {
 // EncodeGlyph produces the plain charstring of g. Subroutines are appended
 // to lay.Subrs.
 func EncodeGlyph(rng *rand.Rand, g *WGlyph, lay *WLayout) []byte {
+	if g.Raw != nil {
+		return g.Raw
+	}
 	e := &csEnc{rng: rng, lay: lay, depthOf: map[int]int{}}
 	den := g.Den
 	if den == 0 {
@@ -443,7 +453,9 @@ func RenderType1(rng *rand.Rand, f *WFont, lay *WLayout) []byte {
 		ro, na, xo = " readonly", " noaccess", " executeonly"
 	}
 	lay.Subrs = nil
-	if lay.Flex || lay.HintRepl {
+	if lay.RawSubrs != nil {
+		lay.Subrs = append(lay.Subrs, lay.RawSubrs...)
+	} else if lay.Flex || lay.HintRepl {
 		lay.Subrs = StandardFlexSubrs()
 	} else if rng.IntN(3) == 0 {
 		// no flex, no hint replacement: the first Subrs entries are free for
@@ -469,7 +481,11 @@ func RenderType1(rng *rand.Rand, f *WFont, lay *WLayout) []byte {
 		for i := range lead {
 			lead[i] = byte(rng.IntN(256))
 		}
-		return Encrypt(append(lead, plain...), CharstringKey, nil)
+		c := Encrypt(append(lead, plain...), CharstringKey, nil)
+		if lay.CutShort && len(c) > 0 && rng.IntN(3) == 0 {
+			c = c[:rng.IntN(len(c))]
+		}
+		return c
 	}
 
 	var clear bytes.Buffer
@@ -541,7 +557,9 @@ func RenderType1(rng *rand.Rand, f *WFont, lay *WLayout) []byte {
 		fmt.Fprintf(&priv, "/%s %s def\n", k, f.Private[k])
 	}
 	priv.WriteString("/MinFeature {16 16} " + nd + "\n/password 5839 def\n")
-	if lay.LenIV != 4 || rng.IntN(4) == 0 {
+	if lay.LenIVText != "" {
+		fmt.Fprintf(&priv, "/lenIV %s def\n", lay.LenIVText)
+	} else if lay.LenIV != 4 || rng.IntN(4) == 0 {
 		fmt.Fprintf(&priv, "/lenIV %d def\n", lay.LenIV)
 	}
 	if lay.OtherSubr || lay.Flex || lay.HintRepl {
